@@ -37,6 +37,7 @@ func init() {
 			key := keys[ki]
 			cs, text, err := stepFromDoc(base.doc)
 			if err != nil {
+				oracleFail("C01", "step-rejected", sx.A(text), "a generated, well-formed command step does not load: "+err.Error())
 				continue
 			}
 			sg, _, err := signPayload(key, cs, base.repo, base.penv)
